@@ -292,7 +292,7 @@ func runAlloc(c *fw.Ctx) {
 	}
 
 	// --- (2) valid inputs, small to large: the bound must not be vacuous --------
-	nValid := c.Pick(40, 1200)
+	nValid := c.Pick(64, 1200)
 	for i := 0; i < nValid; i++ {
 		if i%c.NBatch != c.Batch {
 			continue
@@ -430,8 +430,10 @@ func runAlloc(c *fw.Ctx) {
 		}
 		rec(make([]byte, 0, L))
 	})
-	c.Sample(map[string]interface{}{"case": "allocation", "largest_single_decode_bytes": a.stats.maxAlloc, "its_input_len": a.stats.maxAllocLen, "its_target": a.stats.maxAllocTg,
-		"max_bytes_allocated_per_input_byte_x1000": a.stats.maxRatioNum, "bound": fmt.Sprintf("c0(%d|%d) + %d*len", allocC0Generic, allocC0Consensus, allocC1), "meter_overhead": a.base,
-		"largest_decode_of_input_under_64_bytes": a.stats.maxSmall, "its_target_api": a.stats.maxSmallTg})
+	if c.Batch == 1 {
+		c.Sample(map[string]interface{}{"case": "allocation", "largest_single_decode_bytes": a.stats.maxAlloc, "its_input_len": a.stats.maxAllocLen, "its_target": a.stats.maxAllocTg,
+			"max_bytes_allocated_per_input_byte_x1000": a.stats.maxRatioNum, "bound": fmt.Sprintf("c0(%d|%d) + %d*len", allocC0Generic, allocC0Consensus, allocC1), "meter_overhead": a.base,
+			"largest_decode_of_input_under_64_bytes": a.stats.maxSmall, "its_target_api": a.stats.maxSmallTg})
+	}
 	_ = strings.Repeat
 }
